@@ -1229,6 +1229,21 @@ theorem C10_disk_2d_in_bounds (n0 n1 : Nat) (radius : Int) : allOk (diskStores n
 
 example : (diskStores 5 5 2).map (·.i) = [6, 7, 8, 11, 12, 13, 16, 17, 18] ∧ diskStores 0 7 3 = [] := by decide
 
+
+/-- **C10, `_interpolate.cpp`: the small tables of the spline code** (the pieces left open after round 2). `init_poles`: for the orders
+2…5 every `pole[pi]` (`pi < npoles ≤ 2`, the stores and both loops over the poles) is inside `FT pole[2]`; every other order throws
+before any access. `spline_coefficients`: for EVERY `order` the stores `result[hh]`, `hh ≤ order`, are inside the `order + 1` cells the
+caller has `resize`d (`order < 0`: no store). -/
+theorem C10_interpolate_small_tables_in_bounds (order : Int) :
+    (∀ l, polesAccesses order = some l → allOk l = true) ∧ (polesAccesses order = none ↔ order < 2 ∨ 5 < order) ∧
+      allOk (splineCoeffStores order) = true := by
+  refine ⟨polesAccesses_ok order, ?_, splineCoeffStores_ok order⟩
+  unfold polesAccesses
+  split_ifs with h1 h2 <;> simp <;> omega
+
+example : polesAccesses 4 = some [⟨0, 2⟩, ⟨1, 2⟩, ⟨0, 2⟩, ⟨1, 2⟩] ∧ polesAccesses 6 = none ∧
+    (splineCoeffStores 3).map (·.i) = [0, 1, 2, 3] ∧ (FAcc.mk 2 2).ok = false := by decide
+
 /-- **C10 (B9), SURF `compute_dominant_angle`: the window over the sorted samples** (the item left open in round 3). For every
 number of samples `Nsamples ≥ 1` and EVERY outcome of `between_angles` (any angles, NaN included): `samples[0]`, every
 `samples[j]` of the first loop (`j != Nsamples` tested first), every `samples[i]`, `samples[j]` of the update loop — where `j`
